@@ -79,11 +79,11 @@ CeilDivS(a, b) == -((-a) \div b)                \* ceiling for any sign of a, b 
 (* the set of integers the rounded sample may take, as <<min, max>> *)
 RoundRange(f12, tol) == << CeilDivS(f12 - tol - 2048, 4096), (f12 + 4 + tol + 2048) \div 4096 >>
 (* residual ranges of a whole block: index y*8 + x + 1 -> <<min, max>>, clipped to -256..255 *)
-IdctRanges(G, sumAbsF) ==
-    LET tol == Tol12(sumAbsF) IN
+IdctRangesTol(G, tol) ==
     [k \in 1..64 |->
         LET r == RoundRange(Pass2At(G, ((k - 1) % 8) + 1, ((k - 1) \div 8) + 1), tol)
         IN  <<Clamp(r[1], -256, 255), Clamp(r[2], -256, 255)>>]
+IdctRanges(G, sumAbsF) == ByValue(Tol12(sumAbsF), LAMBDA tol : IdctRangesTol(G, tol))
 ZeroRanges == [k \in 1..64 |-> <<0, 0>>]
 IsZeroBlock(F) == \A k \in 1..64 : F[k] = 0
 
